@@ -14,25 +14,6 @@ import JumanjiModel.Env.RobotWarehouse.ConsistentLemmas
 namespace RobotWarehouse
 open Jm
 
-/-- `place_entities_on_grid` for one channel: `grid.at[x, y].set(id + 1)` for the ids `k, k + 1, …` -/
-def placeFrom {α} (pos : α → Int × Int) : IGrid → List α → Nat → IGrid
-  | g, [], _ => g
-  | g, e :: es, k => placeFrom pos (Jx.Grid.setWD g (pos e).1 (pos e).2 ((k : Int) + 1)) es (k + 1)
-
-/-- `requested_ids = jnp.zeros(n).at[queue].set(1)` -/
-def requestedFlags (n : Nat) (queue : List Int) : List Int :=
-  queue.foldl (fun acc q => Jx.setWD acc q 1) (List.replicate n 0)
-
-/-- the state the generator builds from the sampled agent cells, directions and request queue -/
-def genState (R C : Nat) (agentCells : List (Int × Int)) (dirs : List Int) (shelfCells : List (Int × Int))
-    (queue : List Int) : State :=
-  let agents := List.zipWith (fun c d => (⟨c.1, c.2, d, false⟩ : Agent)) agentCells dirs
-  let shelves := List.zipWith (fun c r => (⟨c.1, c.2, r⟩ : Shelf)) shelfCells
-    (requestedFlags shelfCells.length queue)
-  let sg := placeFrom spos (Jx.Grid.mk R C 0) shelves 0
-  { shelfGrid := sg, agentGrid := placeFrom apos (Jx.Grid.mk R C 0) agents 0, agents := agents,
-    shelves := shelves, queue := queue, stepCount := 0, mask := computeMask sg agents }
-
 /-! ### placing entities -/
 
 theorem shaped_mk (R C : Nat) (v : Int) : Jx.Grid.shaped (Jx.Grid.mk R C v) R C = true := by
@@ -277,5 +258,74 @@ theorem gen_spawnOK (cfg : Cfg) {R C : Nat} (hR : 0 < R) (hC : 0 < C)
     obtain ⟨m, hm, rfl⟩ := List.getElem_of_mem hsh
     simp only [List.getElem_zipWith]
     exact hoff _ (List.getElem_mem _)
+
+/-! ### C10: the draw of `spawn_random_entities` (sampling WITHOUT replacement = pairwise different values) -/
+
+theorem unravel_inGrid {R C : Nat} {k : Int} (h0 : 0 ≤ k) (h1 : k < ((R * C : Nat) : Int)) :
+    inGrid R C (unravel C k).1 (unravel C k).2 := by
+  have hC : 0 < C := by
+    rcases Nat.eq_zero_or_pos C with h | h
+    · subst h; simp at h1; omega
+    · exact h
+  have hC' : (0 : Int) < (C : Int) := by omega
+  unfold unravel inGrid
+  refine ⟨Int.ediv_nonneg h0 (by omega), ?_, Int.emod_nonneg _ (by omega), Int.emod_lt_of_pos _ hC'⟩
+  apply Int.ediv_lt_of_lt_mul hC'
+  rw [← Int.natCast_mul]
+  exact h1
+
+/-- `unravel_index` is injective: different flat indices are different cells -/
+theorem unravel_inj {C : Nat} {a b : Int} (h : unravel C a = unravel C b) : a = b := by
+  unfold unravel at h
+  have h1 := congrArg Prod.fst h
+  have h2 := congrArg Prod.snd h
+  simp only [] at h1 h2
+  have ea := Int.emod_add_mul_ediv a C
+  have eb := Int.emod_add_mul_ediv b C
+  rw [← ea, ← eb, h1, h2]
+
+/-- `argwhere(non_highways)`: pairwise different cells of the floor, none of them a highway cell -/
+theorem shelfCells_props {hw : List (List Bool)} {R C : Nat} (hH : Jx.Grid.shaped hw R C = true) (hR : 0 < R) :
+    (∀ c ∈ shelfCells hw, inGrid R C c.1 c.2 ∧ Jx.Grid.getWC hw true c.1 c.2 = false) ∧ (shelfCells hw).Nodup := by
+  have hd := shaped_dims hH hR
+  unfold shelfCells
+  rw [hd.1, hd.2]
+  have e : cellsOf R C = allCells R C := rfl
+  rw [e]
+  refine ⟨?_, (allCells_nodup R C).filter _⟩
+  intro c hc
+  rw [List.mem_filter] at hc
+  exact ⟨mem_allCells.1 hc.1, by simpa using hc.2⟩
+
+/-- C10: for EVERY draw in the support of `spawn_random_entities` (agent cells sampled without replacement from
+the `R * C` flat indices, directions from `0..3`, request queue sampled without replacement from the shelf ids)
+the state `RandomGenerator.__call__` builds passes the spawn certificate; it has the requested number of agents,
+the drawn queue, and one shelf per non-highway cell -/
+theorem generate_spawnOK (cfg : Cfg) {R C : Nat} (hR : 0 < R) (hC : 0 < C)
+    (hH : Jx.Grid.shaped cfg.highways R C = true) (numAgents queueSize : Nat) (d : SpawnDraw)
+    (hv : validSpawn numAgents queueSize cfg.highways d = true) :
+    SpawnOK cfg (generate cfg d) ∧ (generate cfg d).agents.length = numAgents ∧
+    (generate cfg d).queue.length = queueSize ∧
+    (generate cfg d).shelves.length = (shelfCells cfg.highways).length := by
+  have hd := shaped_dims hH hR
+  obtain ⟨hsc, hsnd⟩ := shelfCells_props hH hR
+  simp only [validSpawn, Bool.and_eq_true, decide_eq_true_eq, List.all_eq_true] at hv
+  obtain ⟨⟨⟨⟨⟨⟨⟨hl1, hl2⟩, hl3⟩, hflat⟩, hnd⟩, hdirs⟩, hq⟩, hqnd⟩ := hv
+  rw [hd.1, hd.2] at hflat
+  have hlen : (d.agentFlat.map (unravel C)).length ≤ d.dirs.length := by simp; omega
+  have haIn : ∀ c ∈ d.agentFlat.map (unravel C), inGrid R C c.1 c.2 := by
+    intro c hc
+    obtain ⟨k, hk, rfl⟩ := List.mem_map.1 hc
+    exact unravel_inGrid (hflat k hk).1 (hflat k hk).2
+  have haNd : (d.agentFlat.map (unravel C)).Nodup :=
+    List.Pairwise.map _ (fun a b hab h => hab (unravel_inj h)) hnd
+  have hso := gen_spawnOK cfg hR hC hH (d.agentFlat.map (unravel C)) d.dirs (shelfCells cfg.highways) d.queue hlen
+    haIn haNd (fun k hk => hdirs k hk) (fun c hc => (hsc c hc).1) hsnd hqnd (fun q hq' => hq q hq')
+    (fun c hc => (hsc c hc).2)
+  unfold generate
+  rw [hd.1, hd.2]
+  refine ⟨hso, ?_, hl3, ?_⟩
+  · simp [genState]; omega
+  · simp [genState, requestedFlags_length]
 
 end RobotWarehouse
